@@ -53,6 +53,11 @@ def run_shard(shard, tier, seed, wd, res):
     else:
         for _ in range(25 if g == 1 else 12):
             cases.append((rb(rng, rng.choice(MSG_LENS + [rng.randrange(0, 400)])), rb(rng, rng.choice(DST_LENS + [rng.randrange(0, 256)]))))
+    if shard["idx"] == 0:
+        # the same (msg, tag) under every expander back to back: the result depends on the suite as well
+        for x2 in XS:
+            s.op(gp + ".hash", V.s(x2), V.b(b"one message"), V.b(b"one tag"))
+            s.op(gp + ".encode", V.s(x2), V.b(b"one message"), V.b(b"one tag"))
     for msg, dst in cases:
         for op in ("hash", "encode"):
             a = s.op("%s.%s" % (gp, op), V.s(x), V.b(msg), V.b(dst))
